@@ -136,8 +136,15 @@ class JointBase(Assembly, abc.ABC):
         self.assemblies[0].chop_radial(**kwargs)
 
     def chop_tangential(self, **kwargs):
-        self.assemblies[0].chop_tangential(**kwargs)
-        self.assemblies[1].chop_tangential(**kwargs)
+        # wires that cross the cores run through every branch of the joint:
+        # those are chopped once, on the first half-cylinder;
+        self.assemblies[0].cusp_right.chop_tangential(**kwargs)
+
+        # each other branch adds one more set of wires,
+        # on the shell between itself and the next branch
+        for assembly in self.assemblies[1:]:
+            shape = assembly.cusp_right
+            shape.shell[0].chop(shape.tangential_axis, **kwargs)
 
     def set_outer_patch(self, patch_name: str) -> None:
         for asm in self.assemblies:
